@@ -245,3 +245,76 @@ func gxReportImbalance(o *core.O, p *core.Prog, la *core.LockAnalysis) {
 		}
 	}
 }
+
+// gxLeavesWithEdges calls fn for every non-φ value that may flow into v; for a
+// value entering through a φ, edge is the CFG edge (pred → φ-block) of the
+// outermost φ it enters through, nil when v is not a φ.
+func gxLeavesWithEdges(v ssa.Value, fn func(leaf ssa.Value, edge *core.Edge)) {
+	v = core.Forward(v)
+	ph, ok := v.(*ssa.Phi)
+	if !ok {
+		fn(v, nil)
+		return
+	}
+	for i, e := range ph.Edges {
+		edge := core.Edge{From: ph.Block().Preds[i], To: ph.Block()}
+		for _, leaf := range gxPhiLeaves(e) {
+			ed := edge
+			fn(leaf, &ed)
+		}
+	}
+}
+
+// gxAtLeast is the atom "x >= k is established" for an integer x (given by the
+// predicate isX): any comparison of x with a constant c whose truth (or falsehood)
+// implies x >= k: x > c (c >= k-1), x >= c (c >= k), !(x < c) (c >= k), !(x <= c)
+// (c >= k-1), x == c (c >= k), and the mirrored spellings with the constant on the left.
+func gxAtLeast(isX func(ssa.Value) bool, k int64) core.Atom {
+	return func(v ssa.Value) (bool, bool) {
+		b, ok := v.(*ssa.BinOp)
+		if !ok {
+			return false, false
+		}
+		op := b.Op
+		var c int64
+		switch {
+		case isX(b.X):
+			n, isC := core.ConstInt(b.Y)
+			if !isC {
+				return false, false
+			}
+			c = n
+		case isX(b.Y):
+			n, isC := core.ConstInt(b.X)
+			if !isC {
+				return false, false
+			}
+			c = n
+			switch op { // c op x  ≡  x op' c
+			case token.LSS:
+				op = token.GTR
+			case token.LEQ:
+				op = token.GEQ
+			case token.GTR:
+				op = token.LSS
+			case token.GEQ:
+				op = token.LEQ
+			}
+		default:
+			return false, false
+		}
+		switch op {
+		case token.GTR:
+			return c >= k-1, true
+		case token.GEQ:
+			return c >= k, true
+		case token.LSS:
+			return c >= k, false
+		case token.LEQ:
+			return c >= k-1, false
+		case token.EQL:
+			return c >= k, true
+		}
+		return false, false
+	}
+}
